@@ -35,6 +35,10 @@ OPS = [
     ("fixture", "gen"), ("fixture", "gen-nested"), ("fixture", "plain"), ("fixture", "failing-gen"), ("fixture", "composite-fail"),
     ("cleanup-shared", "plain"), ("cleanup-shared", "layer:feature"), ("cleanup-shared", "layer:testrun"),
 ]
+N_CORE = len(OPS)
+# further operations, used by dedicated jobs only (the general histories range over the core operations):
+# an unnamed scope (with scoped_context_layer(context): ...) and cleanups addressed to the named layer below it
+OPS += [("push", None), ("cleanup", "layer:scenario"), ("cleanup", "layer:rule")]
 
 
 class Ref(object):
@@ -124,7 +128,7 @@ def _h_ctx_ops(sx):
         if i < len(prefix):
             op = OPS[prefix[i]]
         else:
-            c = sx.choice("op%d" % i, list(range(len(OPS))))
+            c = sx.choice("op%d" % i, sx.params.get("ops") or list(range(N_CORE)))
             op = OPS[c if isinstance(c, int) else c.concretize()]
         history.append(op)
         tag = list(history)
@@ -564,14 +568,21 @@ def jobs(tier, seed):
     js = []
     n = 3 if tier == "quick" else 4
     if tier == "quick":
-        for a in range(len(OPS)):
+        for a in range(N_CORE):
             js.append(Job("ops.n%d.%02d" % (n, a), "props.c13:h_ctx_ops", {"n": n, "prefix": [a]},
                           reach=REACH_OPS[:2], min_paths=50, cost=100, validate=40, max_paths=400000, closure=False))
     else:
-        for a in range(len(OPS)):
-            for b in range(len(OPS)):
+        for a in range(N_CORE):
+            for b in range(N_CORE):
                 js.append(Job("ops.n%d.%02d.%02d" % (n, a, b), "props.c13:h_ctx_ops", {"n": n, "prefix": [a, b]},
                               reach=[], min_paths=5, cost=100, validate=4, max_paths=400000, closure=False))
+    ix = lambda *op: OPS.index(tuple(op))
+    scoped = [ix("push", None), ix("cleanup", "layer:scenario"), ix("cleanup", "layer:rule"), ix("cleanup", "layer:feature"), ix("cleanup", "plain"),
+              ix("pop"), ix("set", "a"), ix("del", "a"), ix("push", "scenario"), ix("fixture", "gen")]
+    for name, prefix in (("feature-scenario-unnamed", [ix("push", "feature"), ix("push", "scenario"), ix("push", None)]),
+                         ("rule-unnamed-unnamed", [ix("push", "rule"), ix("push", None), ix("push", None)])):
+        js.append(Job("ops.scoped.%s" % name, "props.c13:h_ctx_ops", {"n": len(prefix) + (3 if tier == "quick" else 4), "prefix": prefix, "ops": scoped},
+                      reach=REACH_OPS, min_paths=50, cost=2000, validate=40, max_paths=400000, closure=False))
     runs = {
         "sc-layer": ([F([S(2), S(1)])], {"out_dom": {"*": [5, 6]}}),
         "feature-layer": ([F([S(1), R([S(1)])])], {"out_dom": {"*": [6, 6]}, "cleanup_layer": "feature"}),
